@@ -41,6 +41,9 @@ NEG_CONTROLS = [
     # round 3: a use-count walk that depends on which equal operands are ONE object
     ("C12_Gen", "C12_Gen_Buggy_WalkDedupsSharedOperands", "TagModelMeetsProperty", True),
     ("C12_Gen", "C12_Gen_Buggy_WalkSkipsSeenObjects", "TagModelMeetsProperty", False),
+    # round 4: a use-count walk that does not go on below a pre-existing wrapper
+    ("C12_Gen", "C12_Gen_Buggy_WrapperCountStopsAtChild", "TagModelMeetsProperty", True),
+    ("C12_Gen", "C12_Gen_Buggy_WrapperCountSkipsChild", "TagModelMeetsProperty", False),
 ]
 NO_LAYOUT = {"mode": "none", "gs": [], "cls": "none"}
 
@@ -646,7 +649,12 @@ def run(tier, seed, out):
                 "bitwise, min/max, the seven operation kinds, wrappers) and EVERY child position at "
                 "any depth a repeated operation in that position with leaves as siblings, as 'host + "
                 "bare repeat' and 'two hosts with other siblings', and every taggable kind repeated "
-                "ONLY as operands of one node; every list is driven once per object-sharing layout TLC "
+                "ONLY as operands of one node, and pre-existing wrappers (no scope / scope / prefix) that "
+                "carry the repeated operation at every depth below the wrapper (direct child, operand of "
+                "the child, deeper, parameter / function of a call inside) with the further occurrence(s) "
+                "outside before / after / in the same expression, inside another pre-existing wrapper, "
+                "twice inside the same wrapper only, below nested pre-existing wrappers, as a commuted "
+                "twin; every list is driven once per object-sharing layout TLC "
                 "lists for it (no sharing; all occurrences of a repeated value one object; only the "
                 "operands of one node one object; thorough: any two of 3-4 occurrences, two values at "
                 "once; everything hash-consed) and every distinct observation is judged; (b) every "
